@@ -234,6 +234,11 @@ fn main() {
                                 let got = set_of(df.get(&x).map(|s| s.iter().cloned().collect::<Vec<_>>()).unwrap_or_default());
                                 if got != exp { report!("compute_dominance_frontiers", m, root, (x, got), (x, exp)); }
                             }
+                            // vertices outside the flow graph rooted at root are excluded: empty frontier
+                            for &x in m.vs.difference(&reach) {
+                                let got = set_of(df.get(&x).map(|s| s.iter().cloned().collect::<Vec<_>>()).unwrap_or_default());
+                                if !got.is_empty() { report!("compute_dominance_frontiers", m, root, (x, got), (x, S::new())); }
+                            }
                         }
                         Ok(Err(e)) => report!("compute_dominance_frontiers", m, root, e.to_string(), "Ok"),
                         Err(_) => report!("compute_dominance_frontiers", m, root, "panic", "Ok"),
